@@ -14,6 +14,7 @@ import DateutilVerif.Base.Wire
 import DateutilVerif.Model.RelativeDelta
 import DateutilVerif.Spec.RelativeDelta
 import DateutilVerif.Generated.RDOps
+import DateutilVerif.Model.RDHistory
 
 namespace Ops.RelativeDelta
 open Wire RDM
@@ -255,6 +256,38 @@ def handleGen (op : String) (args : List String) : Option String :=
         | r => Py.showR showRD r)
   | _ => none
 
+/-- the steps of `rd.hist`: `U` a use (any), `S <0..7> <int>` a relative attribute, `A <0..6> <int|->` an absolute
+    attribute, `D <wd|-> <n|->` the weekday attribute, `W <int>` the `weeks` setter -/
+def parseSteps? : List String → Option (List RDH.Step)
+  | [] => some []
+  | "U" :: rest => (parseSteps? rest).map (fun l => RDH.Step.use .bool :: l)
+  | "W" :: v :: rest => do
+      let v' ← parseInt? v
+      let l ← parseSteps? rest
+      pure (RDH.Step.set (.weeks v') :: l)
+  | "S" :: i :: v :: rest => do
+      let v' ← parseInt? v
+      let m ← match i with
+        | "0" => some (RDH.Mut.years v') | "1" => some (.months v') | "2" => some (.days v') | "3" => some (.leapdays v')
+        | "4" => some (.hours v') | "5" => some (.minutes v') | "6" => some (.seconds v') | "7" => some (.microseconds v')
+        | _ => none
+      let l ← parseSteps? rest
+      pure (RDH.Step.set m :: l)
+  | "A" :: i :: v :: rest => do
+      let v' ← parseOptInt? v
+      let m ← match i with
+        | "0" => some (RDH.Mut.year v') | "1" => some (.month v') | "2" => some (.day v') | "3" => some (.hour v')
+        | "4" => some (.minute v') | "5" => some (.second v') | "6" => some (.microsecond v')
+        | _ => none
+      let l ← parseSteps? rest
+      pure (RDH.Step.set m :: l)
+  | "D" :: w :: n :: rest => do
+      let w' ← parseOptInt? w
+      let n' ← parseOptInt? n
+      let l ← parseSteps? rest
+      pure (RDH.Step.set (.weekday (w'.map (fun x => (x, n')))) :: l)
+  | _ => none
+
 def handle (op : String) (args : List String) : Option String :=
   match handleGen op args with
   | some r => some r
@@ -264,6 +297,15 @@ def handle (op : String) (args : List String) : Option String :=
   | "rd.setmonths" => match args.mapM parseInt? with
     | some [m] => let r := Gen.setMonths {} m; some s!"ok {r.years} {r.months}"
     | _ => none
+  | "rd.weeks" => (parseRD? args).map (fun d => s!"ok {RDH.weeksOf d}")
+  | "rd.setweeks" => do
+      let d ← parseRD? (args.take 18)
+      let v ← (args.drop 18).head? >>= parseInt?
+      pure ("ok " ++ showRD (RDH.setWeeks d v))
+  | "rd.hist" => do
+      let d ← parseRD? (args.take 18)
+      let st ← parseSteps? (args.drop 18)
+      pure ("ok " ++ showRD (RDH.run d st).1)
   | "rd.ydayidx" => some ("ok " ++ showIntList ydayidx)
   | "rd.mk" => (parseKw? args).map (fun k => Py.showR showRD (mk k))
   | "rd.expr" => (evalRPN args []).map (Py.showR showRD)
